@@ -3,6 +3,6 @@ CONSTANTS
     Catalogue <- BuildCatalogue
     Dev = {}
     FieldBytes <- McFieldBytes
-    NormOf <- McNormOf
+    NormTable <- McNormTable
 INVARIANT EmitBatch
 CHECK_DEADLOCK FALSE
